@@ -2,7 +2,9 @@
 from contracts import cli
 from props.common import *  # noqa: F401,F403
 
-FUNCTIONS = [f"{M}:run_manager_from_cli"] + cli.STATUS + ["ghedesigner.validate:validate_input_file#body"]
+from contracts import inputs  # noqa: E402
+
+FUNCTIONS = [f"{M}:run_manager_from_cli"] + cli.STATUS + ["ghedesigner.validate:validate_input_file#body"] + inputs.NAME_SETTERS + [inputs.WORKER[-1], inputs.WORKER[0]]
 NATIVE_FUNCTIONS = [f"{M}:run_manager_from_cli"]
 NATIVE_CASES = {"quick": 14, "thorough": 400}
 NATIVE_LIMIT_S = {"quick": 120, "thorough": 3000}
@@ -11,8 +13,10 @@ LEVEL = "other"
 ASSUMPTIONS = [A_ENGINE,
                "A-CLICK: click (standalone mode) turns SystemExit(status) raised by the callback into the process exit status and an uncaught exception into exit status 1",
                "section validators are used through caller views (0 or 1 per section); jsonschema.validate and the schema files are exercised by the bounded run-time contract only",
-               "_run_manager_from_cli_worker is used through a caller view (status 0 or 1; invalid input refused); its body is not under a discharged contract"]
-NOT_PROVED = ["_run_manager_from_cli_worker body and the eight section validators (upper-casing of the five case-insensitive names, schema semantics): bounded run-time contract through the real entry point",
+               "_run_manager_from_cli_worker is used through a caller view (status 0 or 1; invalid input refused) in the status logic; its body is verified separately (refuses an invalid file with "
+               "status 1 before loading; returns 0 only after write_output_files) for the file shapes listed under C17"]
+NOT_PROVED = ["the eight section validators (schema semantics; upper-casing of fluid / flow-type / time-step names inside them): bounded run-time contract through the real entry point; "
+              "case-insensitivity of the pipe-arrangement and design-method names in the loader is proved (set_pipe_type / set_design_geometry_type in three spellings each)",
               "'exits zero only when the output files were written' for full runs: checked by the bounded runs (files inspected)"]
 EXPLANATION = ("The status logic is proved for all flag combinations (6 variants: --convert absent/IDF/other x output directory absent/given, validate-only symbolic): exit status 0 only if "
                "(validate-only and zero validation errors) or (IDF conversion) or (a run whose worker returned 0); validation errors give non-zero; unsupported --convert gives 1; missing "
